@@ -410,7 +410,17 @@ func runC04Concurrent(pl *plan.Plan, out *plan.Outcome) {
 			ret := next()
 			env.Count("c04.concurrent_data_decodes", 1)
 			if derr != nil || msg == nil {
-				continue // the template may not exist yet: an error is acceptable here
+				// Acceptable only while no template has been stored yet. Once a template message of the
+				// other task has returned, there is a valid template for this (domain, id) at every
+				// instant (that task only ever re-sends valid ones, of the same widths): the data set
+				// has a template and decodes under it, whichever version.
+				for _, ev := range tevs {
+					if ev.ret != 0 && ev.ret < call {
+						env.Violate("rejected-decodable", "concurrent", "op %d: a data set was refused (%v) although a valid template for its (domain, id) had been accepted before the call began and templates were only ever replaced by valid ones since", i, derr)
+						break
+					}
+				}
+				continue
 			}
 			d := captureMsg(msg)
 			// versions that were in force at some point during [call, ret]
